@@ -2,8 +2,16 @@
    no ANSI escape codes with colour disabled.  Statements only; models in Sys/RenderFilter.v (+ Gen/RenderFilter.v,
    regenerated from nbdime/prettyprint.py), proofs in Sys/RenderFilterProofs.v. *)
 From Coq Require Import List NArith.
-From NB Require Import Base.Res Base.Json Diff.DiffFormat Diff.Wf Sys.RenderTypes Gen.RenderFilter Sys.RenderFilter Sys.RenderFilterProofs.
-Import ListNotations.
+From NB Require Import Base.Res.
+From NB Require Import Base.Json.
+From NB Require Import Diff.DiffFormat.
+From NB Require Import Diff.Wf.
+From NB Require Import Sys.RenderTypes.
+From NB Require Import Gen.RenderFilter.
+From NB Require Import Sys.RenderFilter.
+From NB Require Import Sys.RenderFilterProofs..
+From NB Require Import Import.
+From NB Require Import ListNotations.
 
 Theorem render_empty_silent : forall fuel c O a, render_notebook_diff fuel c O a [] = Ok [].
 Proof. exact render_empty_silent_l. Qed.
